@@ -1,3 +1,4 @@
+import Mrpro.Lemmas.SrcL
 import Mrpro.Model.Load
 import Mrpro.Lemmas.LoadL
 /-! # C14 — loading raw data is faithful to acquisition indices, not to file order -/
@@ -41,5 +42,22 @@ theorem filter_keeps_other_flags :
 traversed backwards -/
 theorem kfreq_formula (n : Nat) (c : Int) (j : Nat) (hj : j < n) :
     kfreq n c false j = j - c ∧ kfreq n c true j = kfreq n c false (n - 1 - j) := M.kfreq_formula n c j hj
+
+/-! ### Tie to the source: integer code translated from `/repo` on this run -/
+
+/-- `KData.from_file`: `(n_k1, n_k2)` computed by the current source from the unique acquisition
+counts is `shapeKOf` … -/
+theorem src_kdata_shape (a b : List Nat) (hb : b ≠ []) :
+    M.Src.kdata_shape a.length (a.headD 0) (b.headD 0) b.length
+      = (((M.shapeKOf a b).1 : Int), ((M.shapeKOf a b).2 : Int)) :=
+  M.SrcL.kdata_shape_eq a b hb
+
+/-- … which is what the model's `shapeK` uses -/
+theorem shapeK_eq_shapeKOf (l : List M.Acq) :
+    M.shapeK l = ((M.shapeKOf ((M.countsBy (fun a => a.key.drop 1) l).eraseDups)
+        ((M.countsBy (fun a => a.key.drop 2) l).eraseDups)).2,
+      (M.shapeKOf ((M.countsBy (fun a => a.key.drop 1) l).eraseDups)
+        ((M.countsBy (fun a => a.key.drop 2) l).eraseDups)).1) :=
+  M.SrcL.shapeK_eq l
 
 end C14
